@@ -78,6 +78,10 @@ type gateCfg struct {
 	Global    int    `json:"global"`
 	Disabled  bool   `json:"sampling_disabled"`
 	BasicN    uint32 `json:"basic_n"` // 0 = no sampler
+	// Source: when non-empty, the logger is not built from the fields above but obtained in this way
+	// (sources.go: Nop(), zerolog.Ctx of a context without logger, ...); HasWriter and Level then describe
+	// the logger the source yields
+	Source string `json:"logger_obtained_as,omitempty"`
 }
 
 func (g gateCfg) coq() string {
@@ -136,16 +140,27 @@ func runRow(g gateCfg, calls []call) []callObs {
 	defer zerolog.DisableSampling(false)
 	w := &lvlWriter{}
 	var l zerolog.Logger
-	if g.HasWriter {
-		l = zerolog.New(w)
-	}
-	l = l.Level(zerolog.Level(g.Level))
-	if g.BasicN > 0 {
-		l = l.Sample(&zerolog.BasicSampler{N: g.BasicN})
+	lp := &l
+	if g.Source != "" {
+		src := sourceByName(g.Source)
+		if src == nil || src.HasWriter != g.HasWriter || src.Level != g.Level || g.BasicN != 0 {
+			panic("driver: gate row names an unknown logger source, or parameters that are not the source's: " + g.Source)
+		}
+		var restore func()
+		lp, restore = src.mk(w, zerolog.HookFunc(func(e *zerolog.Event, lv zerolog.Level, m string) {}))
+		defer restore()
+	} else {
+		if g.HasWriter {
+			l = zerolog.New(w)
+		}
+		l = l.Level(zerolog.Level(g.Level))
+		if g.BasicN > 0 {
+			l = l.Sample(&zerolog.BasicSampler{N: g.BasicN})
+		}
 	}
 	out := make([]callObs, len(calls))
 	for i, c := range calls {
-		out[i] = doCall(&l, w, c)
+		out[i] = doCall(lp, w, c)
 	}
 	return out
 }
@@ -393,6 +408,16 @@ type printWriter struct{}
 func (printWriter) Write(p []byte) (int, error) { fmt.Println("written"); return len(p), nil }
 
 func child(mode string) {
+	if strings.HasPrefix(mode, "fatal-src-") {
+		idx := -1
+		fmt.Sscanf(strings.TrimPrefix(mode, "fatal-src-"), "%d", &idx)
+		childFatalSource(idx)
+		os.Exit(0)
+	}
+	if mode == "history-fatal" {
+		childHistoryFatal()
+		os.Exit(0)
+	}
 	if strings.HasPrefix(mode, "fatal-obs-") {
 		l := zerolog.New(printWriter{}).Hook(zerolog.HookFunc(func(e *zerolog.Event, lv zerolog.Level, m string) { fmt.Println("invoked hook") }))
 		switch mode {
@@ -429,7 +454,9 @@ func child(mode string) {
 }
 
 func runChild(mode string) (int, string) {
-	cmd := exec.Command(os.Args[0])
+	ctx, cancel := context.WithTimeout(context.Background(), 30*time.Second)
+	defer cancel()
+	cmd := exec.CommandContext(ctx, os.Args[0])
 	cmd.Env = append(os.Environ(), "VERIF_C04_CHILD="+mode)
 	out, err := cmd.CombinedOutput()
 	code := 0
@@ -445,9 +472,11 @@ func runChild(mode string) (int, string) {
 var gateLevels = []int{-128, -2, -1, 0, 1, 3, 5, 6, 7, 8, 127}
 
 func runC04(c *Ctx) {
-	c.Res.Rule = "gate rows: (logger level, global level, optional BasicSampler, DisableSampling) x calls through every entry point (all 256 levels via WithLevel, the named level methods, Panic under recover, with and without Discard); exhaustive Go-side table 256x256x256; every reflected *Event method on a nil event (2 argument variants); Fatal in a child process; Level String/ParseLevel on all 256 levels and hostile strings; MarshalText/UnmarshalText/ParseLevel on all 256 levels under 22 namings of the nine named levels (upper/mixed case, renamed, rotated and swapped default names, numbers as names, empty texts, blanks, non-ASCII; also namings that give several levels one text), each installed as a replaced LevelFieldMarshalFunc and through the Level*Value variables: the level must read back when the 256 texts are pairwise different up to case, otherwise the text must read back as a level with that text; ParseLevel under each ASCII naming on its names, their case variants, the default names and numbers against Misc/LevelNames.v; the gate and inertness for 16 entry points while another goroutine alternates the global level between two values (4 logger levels x 12 ordered pairs, 4 emitting goroutines, runs prolonged until the emitters have seen the level change), judged on the events whose fate is the same under both values. Non-trivial gate row = has both written and filtered calls"
+	c.Res.Rule = "gate rows: (logger level, global level, optional BasicSampler, DisableSampling) x calls through every entry point (all 256 levels via WithLevel, the named level methods, Panic under recover, with and without Discard); history rows: every ordered pair of 14 calls (Panic() written / filtered / discarded, WithLevel(Panic/Fatal), custom levels, discarded events) back to back on one goroutine x 12 gates, each call judged whatever preceded it, and Fatal() after such a history in a child; 19 ways of obtaining a logger that filters everything (Nop(), zerolog.Ctx / log.Ctx / hlog.FromRequest of a context without logger with DefaultContextLogger unset or disabled, copies and derivations of that logger, a stored Level(Disabled) logger, Logger{}, the global log.Logger) x 2 global levels: gate row, inert grid through the pointer handed out, Fatal() in a child; exhaustive Go-side table 256x256x256; every reflected *Event method on a nil event (2 argument variants); Fatal in a child process; Level String/ParseLevel on all 256 levels and hostile strings; MarshalText/UnmarshalText/ParseLevel on all 256 levels under 22 namings of the nine named levels (upper/mixed case, renamed, rotated and swapped default names, numbers as names, empty texts, blanks, non-ASCII; also namings that give several levels one text), each installed as a replaced LevelFieldMarshalFunc and through the Level*Value variables: the level must read back when the 256 texts are pairwise different up to case, otherwise the text must read back as a level with that text; ParseLevel under each ASCII naming on its names, their case variants, the default names and numbers against Misc/LevelNames.v; the gate and inertness for 16 entry points while another goroutine alternates the global level between two values (4 logger levels x 12 ordered pairs, 4 emitting goroutines, runs prolonged until the emitters have seen the level change), judged on the events whose fate is the same under both values. Non-trivial gate row = has both written and filtered calls"
 	header := "From Coq Require Import String.\nFrom Verif Require Import Base.Prelude Misc.Level Misc.LevelNames Lts.Sampler Misc.Gate Harness.C04H.\nLocal Open Scope string_scope."
-	c.OpenShards(header, "c04_case * c04_obs", "mismatches c04_run c04_eqb", 200)
+	// gate rows are long terms (hundreds of calls each): small shards, evaluated in parallel
+	openShards := func(limit int) { c.OpenShards(header, "c04_case * c04_obs", "mismatches c04_run c04_eqb", limit) }
+	openShards(24)
 
 	// (a) gate rows
 	var calls []call
@@ -477,6 +506,12 @@ func runC04(c *Ctx) {
 			}
 			// monitor: property stated directly
 			cl := cs[i]
+			// the calls made just before on the same goroutine and logger belong to the input (event pool)
+			prev := cs[:i]
+			if len(prev) > 4 {
+				prev = prev[len(prev)-4:]
+			}
+			cse := map[string]interface{}{"gate": g, "call": cl, "preceding_calls_on_this_logger": prev}
 			lvl := cl.Lvl
 			switch cl.Entry {
 			case "trace":
@@ -499,18 +534,18 @@ func runC04(c *Ctx) {
 				want := pass && !cl.Discard
 				if (len(o.Writes) == 1) != want || len(o.Writes) > 1 {
 					c.Violate(Violation{Key: "gate-wrong", Monitor: "gate-iff", Desc: fmt.Sprintf("logger level %d, global %d: %s(%d) discard=%v wrote %v, want written=%v", g.Level, g.Global, cl.Entry, lvl, cl.Discard, o.Writes, want),
-						Case: map[string]interface{}{"gate": g, "call": cl}, Observed: o.Writes, Expected: want})
+						Case: cse, Observed: o.Writes, Expected: want})
 				}
 			}
 			if len(o.Writes) == 1 && o.Writes[0] != lvl {
-				c.Violate(Violation{Key: "writelevel-wrong", Monitor: "writelevel-exact", Desc: fmt.Sprintf("%s(%d) reached WriteLevel with level %d", cl.Entry, lvl, o.Writes[0]), Case: map[string]interface{}{"gate": g, "call": cl}, Observed: o.Writes, Expected: lvl})
+				c.Violate(Violation{Key: "writelevel-wrong", Monitor: "writelevel-exact", Desc: fmt.Sprintf("%s(%d) reached WriteLevel with level %d", cl.Entry, lvl, o.Writes[0]), Case: cse, Observed: o.Writes, Expected: lvl})
 			}
 			if !pass && len(o.Writes) > 0 {
-				c.Violate(Violation{Key: "gate-wrong", Monitor: "gate-iff", Desc: fmt.Sprintf("filtered call %s(%d) was written", cl.Entry, lvl), Case: map[string]interface{}{"gate": g, "call": cl}})
+				c.Violate(Violation{Key: "gate-wrong", Monitor: "gate-iff", Desc: fmt.Sprintf("filtered call %s(%d) was written", cl.Entry, lvl), Case: cse})
 			}
 			wantPanic := cl.Entry == "panic"
 			if (len(o.Dones) == 1) != wantPanic {
-				c.Violate(Violation{Key: "panic-callback-wrong", Monitor: "panic-when-filtered", Desc: fmt.Sprintf("%s(%d): panicked=%v, want %v (logger level %d, global %d)", cl.Entry, lvl, len(o.Dones) == 1, wantPanic, g.Level, g.Global), Case: map[string]interface{}{"gate": g, "call": cl}})
+				c.Violate(Violation{Key: "panic-callback-wrong", Monitor: "panic-when-filtered", Desc: fmt.Sprintf("%s(%d) discard=%v: panicked=%v, want %v (logger level %d, global %d%s; preceding calls %+v): Panic() panics once per call, written or filtered; no other call panics", cl.Entry, lvl, cl.Discard, len(o.Dones) == 1, wantPanic, g.Level, g.Global, srcNote(g), prev), Case: cse})
 			}
 		}
 		c.AddCase(term, map[string]interface{}{"gate": g, "calls": len(cs)})
@@ -529,6 +564,9 @@ func runC04(c *Ctx) {
 		emitRow(gateCfg{HasWriter: true, Level: 0, Global: 1, BasicN: n, Disabled: true}, calls)
 	}
 	c.Sample(map[string]interface{}{"gate": gateCfg{HasWriter: true, Level: 1, Global: -1}, "calls": calls[126:134]})
+	// (i) histories: every ordered pair of calls from an alphabet of entry points, back to back (sources.go)
+	callHistories(c, emitRow)
+	openShards(200)
 	c.Res.ExtraCoverage["gate_rows_model_checked"] = rows
 
 	// (b) exhaustive table on the real code
@@ -542,7 +580,13 @@ func runC04(c *Ctx) {
 				zerolog.SetGlobalLevel(zerolog.Level(gl))
 				for lv := -128; lv <= 127; lv++ {
 					w.levels = w.levels[:0]
-					l.WithLevel(zerolog.Level(lv)).Msg("")
+					if pan := withLevelMsg(&l, lv); pan != nil {
+						bad++
+						if bad <= 3 {
+							c.Violate(Violation{Key: "panic-callback-wrong", Monitor: "gate-exhaustive", Desc: fmt.Sprintf("logger level %d, global %d, WithLevel(%d).Msg(\"\") panicked (%v): WithLevel never panics", ll, gl, lv, pan),
+								Case: map[string]interface{}{"logger_level": ll, "global_level": gl, "event_level": lv, "note": "events are taken from a pool: the calls this process made before (the gate rows and histories, Panic() under recover included) belong to the input"}, Observed: fmt.Sprint(pan), Expected: "no panic"})
+						}
+					}
 					n++
 					want := lv >= ll && lv >= gl && lv != 7
 					got := len(w.levels) == 1 && w.levels[0] == lv
@@ -610,73 +654,11 @@ func runC04(c *Ctx) {
 					if reject {
 						l = l.Sample(&zerolog.BasicSampler{N: 0})
 					}
-					type ent struct {
-						name  string
-						lvl   int
-						mk    func() *zerolog.Event
-						fires bool // Panic(): the statement panics, written or filtered
-					}
-					ents := []ent{{"Trace", -1, l.Trace, false}, {"Debug", 0, l.Debug, false}, {"Info", 1, l.Info, false}, {"Warn", 2, l.Warn, false}, {"Error", 3, l.Error, false}, {"Log", 6, l.Log, false}, {"Panic", 5, l.Panic, true}}
-					for lv := -128; lv <= 7; lv++ {
-						lv := lv
-						ents = append(ents, ent{fmt.Sprintf("WithLevel(%d)", lv), lv, func() *zerolog.Event { return l.WithLevel(zerolog.Level(lv)) }, false})
-					}
-					for _, en := range ents {
-						want := en.lvl >= ll && en.lvl >= gl && en.lvl != 7 && !reject
-						wasLive := false
-						for _, sh := range inertShapes {
-							if !en.fires && !want && sh.skipPlain {
-								continue
-							}
-							st.calls = nil
-							before := len(w.levels)
-							var e *zerolog.Event
-							panicked := func() (p bool) {
-								defer func() {
-									if r := recover(); r != nil {
-										p = true
-									}
-								}()
-								e = en.mk()
-								sh.run(e, st)
-								return false
-							}()
-							written := len(w.levels) > before
-							runs++
-							cs := map[string]interface{}{"logger_level": ll, "global_level": gl, "rejecting_sampler": reject, "entry": en.name, "statement": sh.name}
-							if written != (want && sh.sends) {
-								c.Violate(Violation{Key: "gate-wrong", Monitor: "inert-grid", Desc: fmt.Sprintf("logger level %d, global %d, rejecting sampler %v, %s%s: written=%v, want %v", ll, gl, reject, en.name, sh.name, written, want && sh.sends), Case: cs})
-							}
-							if !en.fires && panicked {
-								c.Violate(Violation{Key: "panic-callback-wrong", Monitor: "inert-grid", Desc: fmt.Sprintf("logger level %d, global %d, rejecting sampler %v: %s%s panicked (only Panic() may)", ll, gl, reject, en.name, sh.name), Case: cs})
-							}
-							guarded := strings.HasPrefix(sh.name, " [")
-							if en.fires && sh.sends && !guarded && !panicked {
-								c.Violate(Violation{Key: "panic-callback-wrong", Monitor: "inert-grid", Desc: fmt.Sprintf("logger level %d, global %d, rejecting sampler %v: %s%s did not panic (filtered: %v)", ll, gl, reject, en.name, sh.name, !want), Case: cs})
-							}
-							if en.fires && want && panicked != sh.sends {
-								c.Violate(Violation{Key: "panic-callback-wrong", Monitor: "inert-grid", Desc: fmt.Sprintf("logger level %d, global %d: admitted %s%s: panicked=%v, want %v", ll, gl, en.name, sh.name, panicked, sh.sends), Case: cs})
-							}
-							if !want {
-								filtered++
-								if e != nil {
-									wasLive = true
-								}
-								if len(st.calls) != 0 {
-									c.Violate(Violation{Key: "filtered-event-not-inert", Monitor: "inert-grid", Desc: fmt.Sprintf("logger level %d, global %d, rejecting sampler %v: the filtered event from %s, used as %s%s, invoked %v (event nil: %v)", ll, gl, reject, en.name, en.name, sh.name, st.calls, e == nil),
-										Case: cs, Observed: st.calls, Expected: []string{}})
-								}
-								if en.fires && guarded && !panicked {
-									// "Panic() still panics ... when filtered": the call itself, whatever is done with its result
-									c.Violate(Violation{Key: "filtered-panic-deferred", Monitor: "inert-grid", Desc: fmt.Sprintf("logger level %d, global %d, rejecting sampler %v: filtered %s%s (event never sent) did not panic", ll, gl, reject, en.name, sh.name), Case: cs})
-								}
-							}
-						}
-						if wasLive {
-							live++
-							liveFilteredMethods(c, en.mk, w, map[string]interface{}{"logger_level": ll, "global_level": gl, "rejecting_sampler": reject, "entry": en.name})
-						}
-					}
+					ents := gridEntries(&l, 7)
+					r, f, lv := inertGridRun(c, ents, func(en gridEnt) bool { return en.lvl >= ll && en.lvl >= gl && en.lvl != 7 && !reject }, st, w,
+						fmt.Sprintf("logger level %d, global %d, rejecting sampler %v", ll, gl, reject),
+						map[string]interface{}{"logger_level": ll, "global_level": gl, "rejecting_sampler": reject})
+					runs, filtered, live = runs+r, filtered+f, live+lv
 				}
 			}
 		}
@@ -699,6 +681,11 @@ func runC04(c *Ctx) {
 		}
 		c.Res.Evaluations++
 	}
+
+	// (h) every way of obtaining a logger that filters everything (sources.go)
+	openShards(24)
+	disabledLoggerSources(c, emitRow, calls)
+	openShards(200)
 
 	// (e) level text
 	for l := -128; l <= 127; l++ {
